@@ -281,7 +281,7 @@ def nuts(n_iter,
         # adjust stepsize according to target acceptance ratio
         if ii <= n_adapt:
             accept_ratio = (1. - 1. / (ii + ii_offset)) * accept_ratio \
-                + (target_prob - float(mh_ratio) / n_steps) / (ii + ii_offset)
+                + (target_prob - float(np.squeeze(mh_ratio)) / n_steps) / (ii + ii_offset)
             log_stepsize = target_stepsize - np.sqrt(ii) / shrinkage * accept_ratio
             log_avg_stepsize = ii ** discount * log_stepsize + \
                 (1. - ii ** discount) * log_avg_stepsize
@@ -326,7 +326,7 @@ def _build_tree_nuts(params, momentum, log_slicevar, step, depth, log_joint0, ta
         momentum1 = momentum1 + 0.5 * step * grad_target(params1)
 
         log_joint = target(params1) - 0.5 * np.inner(momentum1, momentum1)
-        n_ok = float(log_slicevar <= log_joint)
+        n_ok = float(np.squeeze(log_slicevar <= log_joint))
         sub_ok = log_slicevar < (1000. + log_joint)  # check for diverging error
         is_out = False
         if not sub_ok:
